@@ -275,14 +275,14 @@ impl RiskManager for SimRisk {
         let s = self.script.lock().unwrap();
         let (mut ac, mut ao, mut rc, mut ro) = (Vec::new(), Vec::new(), Vec::new(), Vec::new());
         for c in cancels {
-            if s.refuse_cancel_cids.iter().any(|x| x.as_str() == c.key.cid.0.as_str()) {
+            if s.refuse_cancel_cids.iter().any(|x| x.as_str() == c.key.cid.0.as_str() || *x == format!("{}:{}", c.key.instrument.0, c.key.cid.0)) {
                 rc.push(RiskRefused::new(c, "sim refuses"));
             } else {
                 ac.push(RiskApproved::new(c));
             }
         }
         for o in opens {
-            if s.refuse_open_cids.iter().any(|x| x.as_str() == o.key.cid.0.as_str()) {
+            if s.refuse_open_cids.iter().any(|x| x.as_str() == o.key.cid.0.as_str() || *x == format!("{}:{}", o.key.instrument.0, o.key.cid.0)) {
                 ro.push(RiskRefused::new(o, "sim refuses"));
             } else {
                 ao.push(RiskApproved::new(o));
@@ -325,6 +325,15 @@ pub struct OrdB {
     pub qty: i64,
     pub price: i64,
     pub market: bool,
+    /// this order carries the client order id of that other order, which lives on another
+    /// instrument (orders are keyed by client order id per instrument)
+    #[serde(default)]
+    pub twin: Option<usize>,
+}
+
+thread_local! {
+    /// order -> order whose client order id it shares (set by `WorldB::build` for the scenario at hand)
+    static CID_ALIAS: std::cell::RefCell<Vec<Option<usize>>> = const { std::cell::RefCell::new(Vec::new()) };
 }
 
 #[derive(Clone, Debug, Serialize, Deserialize, PartialEq)]
@@ -450,6 +459,13 @@ pub fn topo_instruments_b(topo: &TopoB) -> IndexedInstruments {
 
 impl WorldB {
     pub fn build(sc: &ScenarioB) -> (WorldB, SimEngine) {
+        CID_ALIAS.with(|a| {
+            *a.borrow_mut() = sc
+                .ords
+                .iter()
+                .map(|o| o.twin.filter(|t| *t < sc.ords.len() && sc.ords[*t].twin.is_none() && sc.ords[*t].inst != o.inst))
+                .collect()
+        });
         let instruments = topo_instruments_b(&sc.topo);
         let n_ex = instruments.exchanges().len();
         let inst_ex: Vec<usize> = instruments
@@ -542,6 +558,7 @@ impl WorldB {
     }
 
     pub fn cid(ord: usize) -> String {
+        let ord = CID_ALIAS.with(|a| a.borrow().get(ord).copied().flatten()).unwrap_or(ord);
         format!("o{ord}")
     }
 
@@ -798,8 +815,9 @@ impl WorldB {
                     .filter(|o| self.ord_valid(sc, **o))
                     .map(|o| self.open_request(sc, *o))
                     .collect();
-                s.refuse_cancel_cids = a.refuse_cancels.iter().map(|o| Self::cid(*o)).collect();
-                s.refuse_open_cids = a.refuse_opens.iter().map(|o| Self::cid(*o)).collect();
+                // (instrument:cid - a client order id may be in use on two instruments)
+                s.refuse_cancel_cids = a.refuse_cancels.iter().filter(|o| **o < sc.ords.len()).map(|o| format!("{}:{}", sc.ords[*o].inst, Self::cid(*o))).collect();
+                s.refuse_open_cids = a.refuse_opens.iter().filter(|o| **o < sc.ords.len()).map(|o| format!("{}:{}", sc.ords[*o].inst, Self::cid(*o))).collect();
                 s.next = Some((cancels, opens));
             }
         }
@@ -936,8 +954,21 @@ pub fn plan_b(rng: &mut Rng, cfg: &PlanCfg) -> ScenarioB {
         let inst = rng.usize(n_inst);
         let ex = if faults && rng.chance(1, 25) {
             n_ex + rng.usize(2) // unknown exchange index
+        } else if faults && n_ex > 1 && rng.chance(1, 20) {
+            // a request that names another (known) exchange than the one its instrument is listed
+            // on: it goes to the link of the exchange it names
+            (inst_ex[inst] + 1 + rng.usize(n_ex - 1)) % n_ex
         } else {
             inst_ex[inst]
+        };
+        // now and then the client order id of an order on another instrument is used again
+        let twin = if faults && rng.chance(1, 12) {
+            let free: Vec<usize> = (0..ords.len())
+                .filter(|t| ords[*t].twin.is_none() && ords[*t].inst != inst && !ords.iter().any(|o| o.twin == Some(*t)))
+                .collect();
+            (!free.is_empty()).then(|| free[rng.usize(free.len())])
+        } else {
+            None
         };
         ords.push(OrdB {
             ex,
@@ -946,6 +977,7 @@ pub fn plan_b(rng: &mut Rng, cfg: &PlanCfg) -> ScenarioB {
             qty: 1 + rng.range(0, 3),
             price: rng.range(50, 150),
             market: rng.chance(1, 4),
+            twin,
         });
         filled_of.push(0);
         ords.len() - 1
@@ -1359,7 +1391,7 @@ pub fn plan_b(rng: &mut Rng, cfg: &PlanCfg) -> ScenarioB {
             && matches!(ev, EvB::CmdCancelOrders { .. } | EvB::CmdClosePositions { .. })
             && rng.chance(1, 3);
         steps.push(StepB {
-            restore: cfg.focus == Focus::Connectivity && rng.chance(1, 12),
+            restore: matches!(cfg.focus, Focus::Connectivity | Focus::Pnl) && rng.chance(1, 12),
             flips,
             algo,
             ev: ev.clone(),
